@@ -1,11 +1,39 @@
+//! mon-kv: runtime monitors for the storage layer.
+//!   C10 storage transactions (read-your-writes, exact commit, drop, Fail merges)
+//!   C13 block Merkle accumulator (Merklized blueprint on FuelBlocks)
+//!   C14 sparse Merkle roots vs table contents (Sparse blueprint, compression tables)
+
+mod c10;
+mod c13;
+mod c14;
+mod rfc6962;
+
 use vcommon::*;
 
 fn main() {
     let args = Args::parse();
     install_quiet_panic_hook();
     let report = Report::new(&args.property);
-    match args.property.as_str() {
-        other => report.inconclusive(format!("property {other} not implemented in this monitor")),
+    if let Some(n) = args.extra.get("selftest") {
+        report.info("selftest", serde_json::json!(n));
     }
-    report.finish(&args, "exploration", "", false, &[]);
+    let (rule, assumptions): (&str, &[&str]) = match args.property.as_str() {
+        "C10" => {
+            c10::run(&args, &report);
+            (c10::RULE, c10::ASSUMPTIONS)
+        }
+        "C13" => {
+            c13::run(&args, &report);
+            (c13::RULE, c13::ASSUMPTIONS)
+        }
+        "C14" => {
+            c14::run(&args, &report);
+            (c14::RULE, c14::ASSUMPTIONS)
+        }
+        other => {
+            report.inconclusive(format!("property {other} not implemented in this monitor"));
+            ("", &[])
+        }
+    };
+    report.finish(&args, "exploration", rule, false, assumptions);
 }
